@@ -208,7 +208,7 @@ for _k in ('d = vr_mir', 'd = vc_mic'):
     _wp.hints[_k] = ['implies(not keep_int_repr and %s == 0 and psi_2e != 0, vc_mic == vsqrt(%s))' % (METRIC, _WR)]
 _wp.kwdefaults = {'inner_dist': 'squared euclidean'}      # DTWSettings' default, for call sites that omit the key
 _wp.returns = ('tuple', 'val', 'matrix')
-_wp.ensures = list(_wp.ensures) + ['result[1].shape == (%s + 1, %s + 1)' % (R, C)]
+_wp.ensures = list(_wp.ensures) + ['implies(%s >= 1, result[1].shape == (%s + 1, %s + 1))' % (R, R, C)]
 _wp.props = ('C04', 'C13')
 _CT['dtw.warping_paths#endpsi'] = _wp
 
